@@ -134,7 +134,17 @@ def run_case(ctx, g, rng):
         n = 2
         S.counters["wl:comma-twins"] += 1
     cs = rng.random() < 0.5
-    real = [api.Converter([gen.mk_record(api, r) for r in recs]) for recs in convs]
+    # (every second case: the inputs have a past of their own - registered record by record, grown through merges from
+    #  bare records whose synonym fields were never set, copied, pickled ... - seed C09-S: a copy by
+    #  model_dump(exclude_unset=True) forgets what was appended in place)
+    if g % 2 == 0:
+        real = []
+        for recs in convs:
+            c_, how_ = gen.build(api, recs, ":", rng, rejections=False)
+            S.counters[f"wl:build:{how_.split('+')[0]}"] += 1
+            real.append(c_)
+    else:
+        real = [api.Converter([gen.mk_record(api, r) for r in recs]) for recs in convs]
     ordered = [list(spec.snapshot(c)) for c in real]
     o = call(api.chain, real, case_sensitive=cs)
     kinds = overlap_kinds(ordered)
